@@ -78,6 +78,9 @@ OUTSIDE = ["the structural quantifier of the property text ('every syntactically
         "imports between modules, the machine-code back ends (c3c beyond optimize)",
         "IR text: floating-point constants, ill-formed modules (the verifier reports those through assert by design: use before "
         "definition, missing terminator ...), non-hexadecimal characters inside literal '...', the IR writer",
+        "C3: the constant-remainder templates `const int64_t x = L0 % L1` (all targets) and `const int32_t x = L0 % L1` on "
+        "16-bit-int targets: a symbolic remainder followed by the two's-complement wrap of the cast leaves path feasibility "
+        "undecided by both solvers (int8_t/int16_t/int/byte/uint* and int32_t on 32/64-bit targets are run)",
         "optimisation passes beyond ppci.api.optimize(level=2)'s fixed pass list (level 0/1/s run a subset / the same list)"]
 ASSUMPTIONS = ["'compiler diagnostic' = ppci.common.CompilerError (the class every front-end error() helper raises); for "
                "c3_to_ir also ppci.build.tasks.TaskError (the documented way it reports every CompilerError), for the IR "
